@@ -26,6 +26,7 @@ def plan(ctx):
     items = [('miri', 0)]
     items += [('fuzz', engine.stable_hash((ctx.seed, 'c03', i))) for i in range(n)]
     items += [('huge', engine.stable_hash((ctx.seed, 'c03h', i))) for i in range(ctx.n(8, 120))]
+    items += [('staircase', engine.stable_hash((ctx.seed, 'c03s', i))) for i in range(ctx.n(150, 3000))]
     if ctx.tier == 'thorough':
         items += [('asan', engine.stable_hash((ctx.seed, 'c03a', i))) for i in range(ctx.n(0, 1500))]
         items += [('valgrind', engine.stable_hash((ctx.seed, 'c03v', i))) for i in range(ctx.n(0, 40))]
@@ -214,6 +215,8 @@ def run_item(item):
         return run_sanitized(kind0, seed)
     if kind0 == 'huge':
         return run_huge(seed)
+    if kind0 == 'staircase':
+        return run_staircase(seed)
     rng = engine.item_rng(seed)
     opts, cls = gen.hostile_options(rng)
     args = gen.to_args(opts)
@@ -254,6 +257,34 @@ def run_item(item):
     if crashmod.classify(acc) is not None:
         outs.append(check_one(args, b'', mode, size, 'empty', cls, 0))
     return outs
+
+
+def run_staircase(seed):
+    """Side-by-side wrapping of syntax-highlighted lines is done twice (syntax sections, diff sections) and the two results must
+    line up: a staircase of lines that differ by one leading blank each puts every character of the line - a combining mark
+    right after a quote, a wide character, a zero-width joiner between two tokens - on the wrap column of some line."""
+    rng = engine.item_rng(seed)
+    ext, mk = rng.choice([('rs', lambda t: 'let s = "%s"; // %s' % (t, t)), ('py', lambda t: "s = '%s'  # %s" % (t, t)), ('js', lambda t: 'const s = `%s`; /* %s */' % (t, t)),
+                          ('c', lambda t: 'char *s = "%s"; /* %s */' % (t, t)), ('md', lambda t: '*%s* `%s`' % (t, t))])
+    mark = rng.choice(['\u0301', '\u20dd', '\u200d', '\ufe0f', '\u0301\u0302', '\u3099'])
+    text = rng.choice([mark + 'abc def', 'x' + mark + 'yz', '\u6f22' + mark + '\u5b57', mark, 'e' + mark + ' ' + mark + 'f', '\U0001f469\u200d\U0001f4bb ok'])
+    body = mk(text) + ' ' + 'tail ' * rng.randint(0, 12)
+    nlines = rng.randint(12, 40)
+    role = rng.choice([' ', ' ', ' ', '-', '+', 'mixed'])
+    lines = ['diff --git a/src/stair.%s b/src/stair.%s' % (ext, ext), 'index 1111111..2222222 100644', '--- a/src/stair.%s' % ext, '+++ b/src/stair.%s' % ext,
+             '@@ -1,%d +1,%d @@' % (nlines, nlines)]
+    for i in range(nlines):
+        k = role if role != 'mixed' else rng.choice(' -+')
+        lines.append(k + ' ' * i + body)
+    args = ['--paging', 'never', '--side-by-side', '--width', str(rng.choice([30, 36, 40, 41, 50, 60, 72, 80])), '--syntax-theme', rng.choice(gen.THEMES_DARK + gen.THEMES_LIGHT)]
+    if rng.random() < 0.5:
+        args += ['--wrap-max-lines', rng.choice(['unlimited', '1', '3', '5'])]
+    if rng.random() < 0.3:
+        args += ['--line-numbers-left-format', '', '--line-numbers-right-format', '']
+    if rng.random() < 0.3:
+        args += ['--tabs', str(rng.choice([0, 1, 4]))]
+    data = ('\n'.join(lines) + '\n').encode('utf-8')
+    return [check_one(args, data, 'pipe', (24, 80), 'staircase', ['staircase', 'sbs'], 0)]
 
 
 def run_huge(seed):
